@@ -2,6 +2,8 @@ package harness
 
 import (
 	"fmt"
+	"os"
+	"regexp"
 	"hash/fnv"
 	"sort"
 	"strings"
@@ -175,6 +177,7 @@ func (e *Env) Rec(stream, kind, detail string, hashed bool) int {
 		e.histAt = (e.histAt + 1) % histCap
 	}
 	if hashed {
+		detail = canonical(detail)
 		h := fnv.New64a()
 		var b [8]byte
 		s := e.streams[stream]
@@ -193,9 +196,11 @@ func (e *Env) Rec(stream, kind, detail string, hashed bool) int {
 	return ev.N
 }
 
+var fullPrint = os.Getenv("VERIF_FULL") != ""
+
 func printable(s string) string {
 	s = strings.ReplaceAll(s, "\x01", "|")
-	if len(s) > 300 {
+	if len(s) > 300 && !fullPrint {
 		s = s[:300] + "..."
 	}
 	return s
@@ -297,3 +302,23 @@ func (e *Env) StreamHashes() map[string]uint64 {
 
 // Freeze ends the recorded part of the run (called at the start of teardown).
 func (e *Env) Freeze() { e.mu.Lock(); e.frozen = true; e.mu.Unlock() }
+
+// canonical removes the one piece of engine output that is legitimately nondeterministic from
+// what goes into the canonical trace: when several required fields are missing, the validator
+// reports whichever it meets first while ranging over a Go map (validateRequired), so the RefTagID
+// of a "Required tag missing" Reject (and with it BodyLength and CheckSum) differs from run to run.
+var reReqTag = regexp.MustCompile(`\x01371=\d+\x01`)
+var reBodyLen = regexp.MustCompile(`\x019=\d+\x01`)
+var reCkSum = regexp.MustCompile(`\x0110=\d\d\d\x01`)
+var reReqTagOld = regexp.MustCompile(`Required tag missing \(\d+\)`)
+
+func canonical(d string) string {
+	if !strings.Contains(d, "Required tag missing") {
+		return d
+	}
+	d = reReqTag.ReplaceAllString(d, "\x01371=*\x01")
+	d = reReqTagOld.ReplaceAllString(d, "Required tag missing (*)")
+	d = reBodyLen.ReplaceAllString(d, "\x019=*\x01")
+	d = reCkSum.ReplaceAllString(d, "\x0110=*\x01")
+	return d
+}
